@@ -184,6 +184,20 @@ func concReplayOne(c *Ctx, id string, scs []*concScenario, rp concReplay) string
 		if serr != "" {
 			return serr
 		}
+		if os.Getenv("VERIF_CONC_TRACE") != "" {
+			for round := 0; round < 3; round++ {
+				if round == 2 {
+					for i := 0; i < 40; i++ {
+						concBody(sc, explore.Replay(nil, nil))
+					}
+				}
+				var tr []string
+				sched.TraceLabels = func(th, l string) { tr = append(tr, th+":"+l) }
+				concBody(sc, explore.Replay(rp.Choices, nil))
+				sched.TraceLabels = nil
+				fmt.Fprintf(os.Stderr, "TRACE round %d (%d steps): %s\n", round, len(tr), strings.Join(tr, " "))
+			}
+		}
 		out, v, berr := concBody(sc, explore.Replay(rp.Choices, nil))
 		if berr != "" {
 			c.Violate(id+"/concurrent/"+strings.Fields(berr)[0], berr, 1, rp)
